@@ -25,11 +25,13 @@ def seal(key: bytes, plaintext: bytes, mac: str, iv: bytes) -> bytes:
     return iv + ct + hmac.digest(key, plaintext, name)[:size]
 
 
-def phrase_pair(rng, passphrase: str, data_key: bytes, *, cipher: str, mac: str, kdf: str, rounds: int, salt: bytes, ident: str = "id1"):
+def phrase_pair(rng, passphrase: str, data_key: bytes, *, cipher: str, mac: str, kdf: str, rounds: int, salt: bytes, ident: str = "id1",
+                data_cipher: str | None = None):
     """-> (locator text, wrapped-key blob bytes)"""
     ks = KEY_SIZES[cipher]
     k1 = hashlib.pbkdf2_hmac(KDFS[kdf], passphrase.encode(), salt, rounds, ks)
-    inner = f"type=key:cipher={q(cipher)}:key={q(base64.b64encode(data_key).decode())}".encode()
+    # the cipher named inside the wrapped dictionary belongs to the data key, not to the wrapping
+    inner = f"type=key:cipher={q(data_cipher or cipher)}:key={q(base64.b64encode(data_key).decode())}".encode()
     blob = seal(k1, inner, mac, bytes(rng.randrange(256) for _ in range(16)))
     return blob, {"ident": ident, "kdf": kdf, "cipher": cipher, "rounds": rounds, "salt": salt, "mac": mac}
 
